@@ -5,6 +5,7 @@ import PdfModel.Lemmas.ContentInline
 import PdfModel.Lemmas.ContentBytesCompose
 import PdfModel.Lemmas.ContentBytesInst
 import PdfModel.Lemmas.ContentBytesParts
+import PdfModel.Spec.ContentStatements
 
 /-!
 # C08 — content-stream operators round-trip and mean what the operator table says
@@ -161,8 +162,12 @@ theorem unsupported_push_nothing (st : PState R) (args : List (Prim R)) :
     (add ro st "ID" args = ⟨st, false⟩) ∧ (add ro st "EI" args = ⟨st, false⟩) := by
   simp [fail]
 
-/-- **Operands never leak (clause 3), buffer form.**  After every operator — keyword or inline image, accepted,
-    failed-and-tolerated alike — the operand buffer is empty. -/
+/-- Operands never leak (clause 3), buffer form: after every operator — keyword or inline image, accepted,
+    failed-and-tolerated alike — the operand buffer of the model is empty.
+    This holds *by construction*: `Content.step` writes the literal `[]` in every operator arm, which is the
+    model's rendering of `buffer.drain(..)` being dropped when `add` returns (that the rendering is faithful is
+    what the correspondence streams `c08.parse*`, `c08.kw*` and the oracle `c08.leak` check on the real
+    `parse_ops`).  The statement with content is `operands_scoped` below. -/
 theorem buffer_empty_after_operator (allow : Bool) (c c' : PCfg R) (t : Tok R)
     (ht : ∀ p, t ≠ .prim p) (h : step ro allow c t = .ok c') : c'.buf = [] := by
   cases t with
@@ -182,10 +187,10 @@ theorem buffer_empty_after_operator (allow : Bool) (c c' : PCfg R) (t : Tok R)
     | some id => simp only [step] at h; cases h; rfl
   | garbage => simp [step] at h
 
-/-- **Operands never leak (clause 3), semantic form.**  What the reader makes of an operator depends on the
-    operands since the previous operator (`buf ++ ps`) and on `(last, subpath_start, compatibility flag)` only,
-    and whatever follows is read from an empty buffer — also when the operator fails and
-    `allow_invalid_ops` lets the reader go on; in strict mode the failure is the result. -/
+/-- Operands never leak (clause 3), one operator: the loop applied to operands followed by a keyword applies
+    `add` to `buf ++ ps` and continues from an empty buffer (tolerated error) or stops with `Err` (strict).
+    This is one unfolding of `parseLoop` / `step` (a definition unfolded, as the audit says); it is kept as the
+    rewriting lemma the byte-level proofs use.  The property over whole token sequences is `operands_scoped`. -/
 theorem operands_never_leak (allow : Bool) (st : PState R) (buf ps : List (Prim R)) (s : String)
     (rest : List (Tok R)) :
     parseLoop ro allow ⟨st, buf⟩ (ps.map .prim ++ .kw s :: rest) =
@@ -194,6 +199,101 @@ theorem operands_never_leak (allow : Bool) (st : PState R) (buf ps : List (Prim 
   rw [parseLoop_prims]
   simp only [parseLoop, step]
   by_cases h : ((add ro st s (buf ++ ps)).ok || allow) = true <;> simp [h]
+
+section
+open ContentStmts
+
+/-- the loop started with `pending` operands in the buffer: statements from `segment pending` -/
+theorem parseLoop_segment (allow : Bool) (toks : List (Tok R)) : ∀ (st : PState R) (pending : List (Prim R)),
+    parseLoop ro allow ⟨st, pending⟩ toks =
+      match runStmts ro allow st (segment pending toks).1 with
+      | .ok st' => .ok ⟨st', (segment pending toks).2⟩
+      | .err => .err
+      | .panic => .panic
+      | .oof => .oof := by
+  induction toks with
+  | nil => intro st pending; simp [parseLoop, segment, runStmts]
+  | cons t ts ih =>
+    intro st pending
+    cases t with
+    | prim p =>
+      simp only [parseLoop, step, segment]
+      exact ih st (pending ++ [p])
+    | kw s =>
+      simp only [parseLoop, step, segment, runStmts]
+      by_cases h : ((add ro st s pending).ok || allow) = true
+      · simp only [h, if_true]
+        exact ih (add ro st s pending).st []
+      · simp [h]
+    | bi img =>
+      cases img with
+      | some id =>
+        simp only [parseLoop, step, segment, runStmts]
+        exact ih (st.push [.inlineImage id]) []
+      | none =>
+        cases allow with
+        | true =>
+          simp only [parseLoop, step, segment, runStmts, if_true]
+          exact ih st []
+        | false => simp [parseLoop, step, segment, runStmts]
+    | garbage => simp [parseLoop, step, segment, runStmts]
+
+/-- **Operands never leak (clause 3), over token sequences.**  `parse_ops` on any token sequence — well-formed or
+    not, strict or tolerant — is the statement-by-statement interpretation of `Spec/ContentStatements`: the
+    sequence is cut by plain list splitting (`segment`, which knows nothing of the reader) into operators with
+    exactly the operands written since the previous operator, and every operator is applied to the operands of
+    *its own* statement and to nothing else; from one statement to the next only the builder state flows.  So no
+    operand of operator k can reach operator k+1 — also when operator k fails and the failure is tolerated, when
+    it takes fewer operands than were written, or when it is an inline image; operands after the last operator
+    are dropped.  (Proof: induction over the token sequence; the buffer of the loop is the `pending` argument of
+    `segment`.) -/
+theorem operands_scoped (allow : Bool) (toks : List (Tok R)) :
+    parseOps ro allow toks =
+      match runStmts ro allow (initState ro) (segment [] toks).1 with
+      | .ok st => .ok st.ops
+      | .err => .err
+      | .panic => .panic
+      | .oof => .oof := by
+  unfold parseOps
+  rw [parseLoop_segment ro allow toks (initState ro) []]
+  cases runStmts ro allow (initState ro) (segment [] toks).1 <;> rfl
+
+/-- The operands an operator receives do not depend on the operands of the statement before it: replacing the
+    operands `a` of operator `k` by any `a'` leaves the operand lists handed to all later operators unchanged
+    (what may change is the builder state that operator `k` leaves behind). -/
+theorem next_operands_independent (pre post : List (Tok R)) (a a' : List (Prim R)) (s : String) :
+    (operandsOf (segment [] (pre ++ a.map .prim ++ .kw s :: post)).1).drop ((segment [] pre).1.length + 1) =
+    (operandsOf (segment [] (pre ++ a'.map .prim ++ .kw s :: post)).1).drop ((segment [] pre).1.length + 1) := by
+  have key : ∀ (pre : List (Tok R)) (pending : List (Prim R)) (b : List (Prim R)),
+      (operandsOf (segment pending (pre ++ b.map .prim ++ .kw s :: post)).1).drop ((segment pending pre).1.length + 1) =
+        operandsOf (segment [] post).1 := by
+    intro pre
+    induction pre with
+    | nil =>
+      intro pending b
+      induction b generalizing pending with
+      | nil => simp [segment, operandsOf]
+      | cons x xs ih => simpa [segment] using ih (pending ++ [x])
+    | cons t ts ih =>
+      intro pending b
+      cases t with
+      | prim p => simpa [segment] using ih (pending ++ [p]) b
+      | kw k => simpa [segment, operandsOf] using ih [] b
+      | bi img => simpa [segment, operandsOf] using ih [] b
+      | garbage => simpa [segment, operandsOf] using ih [] b
+  rw [key pre [] a, key pre [] a']
+
+/-- non-vacuity: extra and wrong operands of one operator (`1 2 3 w`: two too many; `(x) j`: wrong type, tolerated)
+    and operands left over at the end never show up in another statement -/
+example : (segment [] [.prim (.int 1), .prim (.int 2), .prim (.int 3), .kw "w", .prim (.str [120]), .kw "j",
+      .prim (.int 7), .kw "M", .prim (.int 9)] : List (ContentStmts.Stmt Int) × List (Prim Int)).1.length = 3 ∧
+    parseOps intOps true [.prim (.int 1), .prim (.int 2), .prim (.int 3), .kw "w", .prim (.str [120]), .kw "j",
+      .prim (.int 7), .kw "M", .prim (.int 9)] = .ok [.lineWidth 1, .miterLimit 7] := by
+  constructor
+  · rfl
+  · rfl
+
+end
 
 /-- Consequence: a token sequence that ends with an operator can be cut off; the rest reads as it would read
     on its own from the state reached (compositionality of `parse_ops` at operator boundaries). -/
@@ -386,6 +486,43 @@ example : serializeOps intOps ⟨false⟩ demoOps = .ok [
 example : ∃ toks ops', serializeOps intOps ⟨false⟩ demoOps = .ok toks ∧ parseOps intOps true toks = .ok ops' ∧
     opsEquiv intOps ops' demoOps = true :=
   parse_serialize_ops intOps intLaws ⟨false⟩ true demoOps (by decide) (by decide)
+
+/-- the real-number path with `f32` values that are not integers (bit patterns: `0x3f000000` = 0.5,
+    `0xbfa00000` = -1.25, `0x3fa00000` = 1.25, `0x40300000` = 2.75, `0x40000000` = 2.0): `0.5 -1.25 m`, a curve whose
+    first control point is the current point (`v`, decided by `f32 ==` on non-integers), `Leading 1.25` before
+    `Td 0.5 -1.25` (`TD`, decided by `1.25 == -(-1.25)`), a dash array mixing a fraction and an integral value,
+    a `Primitive::Number` operand -/
+def demoF32Ops : List (Op UInt32) := [
+  .moveTo ⟨0x3f000000, 0xbfa00000⟩,
+  .curveTo ⟨0x3f000000, 0xbfa00000⟩ ⟨0x40300000, 0x3f000000⟩ ⟨0x3fa00000, 0x3fa00000⟩,
+  .leading 0x3fa00000, .moveTextPosition ⟨0x3f000000, 0xbfa00000⟩,
+  .lineWidth 0x3f000000, .dash [0x3f000000, 0x40000000] 0xbfa00000,
+  .fillColor (.other [.real 0x3f000000, .name "P0"])]
+
+/-- the hypotheses of `parse_serialize_ops_f32` hold of it (both states of D9) -/
+example : (∀ o ∈ demoF32Ops, finiteOp F32.ops o = true) ∧ (∀ o ∈ demoF32Ops, acceptedOp F32.ops ⟨true⟩ o = true) ∧
+    (∀ o ∈ demoF32Ops, acceptedOp F32.ops ⟨false⟩ o = true) := by
+  decide +kernel
+
+/-- so `parse_serialize_ops_f32` applies: the `f32` instance round-trips a sequence with fractional reals -/
+example (allow : Bool) : ∃ toks ops', serializeOps F32.ops ⟨true⟩ demoF32Ops = .ok toks ∧
+    parseOps F32.ops allow toks = .ok ops' ∧ opsEquiv F32.ops ops' demoF32Ops = true :=
+  parse_serialize_ops_f32 ⟨true⟩ allow demoF32Ops (by decide +kernel) (by decide +kernel)
+
+/-- and, evaluated by the kernel: the fractions travel as real tokens (`0.5` is the first token), the integral `2.0`
+    of the dash array as the integer `2`, both shorthands are chosen (19 tokens instead of 24), and reading
+    returns the sequence -/
+example : (match serializeOps F32.ops ⟨true⟩ demoF32Ops with
+    | .ok toks =>
+      toks.length == 19 &&
+      (match (toks.head? : Option (Tok UInt32)) with | some (Tok.prim (Prim.real r)) => r == 0x3f000000 | _ => false) &&
+      (match (toks[13]? : Option (Tok UInt32)) with
+        | some (Tok.prim (Prim.arr [Prim.real a, Prim.int 2])) => a == 0x3f000000 | _ => false) &&
+      (match parseOps F32.ops false toks with
+        | .ok ops' => opsEquiv F32.ops ops' demoF32Ops
+        | _ => false)
+    | _ => false) = true := by
+  decide +kernel
 
 /-- numeric equality is not syntactic equality: with two zeros (`none` is `-0`) `c1 = (-0, 0)` is the current
     point `(0, 0)`, the writer chooses `v`, the reader returns `c1 = (0, 0)` -/
